@@ -4,6 +4,7 @@ import (
 	"bytes"
 	"fmt"
 	"math/rand/v2"
+	"time"
 
 	dtls "github.com/pion/dtls/v3"
 	"github.com/pion/dtls/v3/internal/fragmentbuffer"
@@ -15,8 +16,9 @@ import (
 //
 // Arena (a): the real sender path (Conn.fragmentHandshake) feeds the real
 // FragmentBuffer through a one-link network that permutes, duplicates,
-// re-splits and interleaves the fragments. Arena (b), tiny-MTU handshakes
-// end to end under reordering, is part of C02's variants.
+// re-splits and interleaves the fragments. Arena (b): a quarter of the sampled
+// runs are whole small-MTU DTLS 1.2 handshakes whose datagrams are reordered and
+// duplicated but never lost; they must complete.
 
 type C12Frag struct {
 	Msg int `json:"m"` // message index
@@ -31,6 +33,11 @@ type C12Params struct {
 	PerRec  int       `json:"per_record"` // fragments packed per record (1..3)
 	Enum    string    `json:"enum,omitempty"`
 	Sender  bool      `json:"sender"` // arrival derived from the real sender's partition (else adversarial partition)
+	// E2E: instead of the component arena, a whole DTLS 1.2 handshake at this MTU whose datagrams
+	// are reordered and duplicated but never lost: every fragment arrives, so every message must
+	// be reassembled and the handshake must complete
+	E2E    string   `json:"e2e,omitempty"` // handshake variant
+	E2ENet NetRules `json:"e2e_net,omitempty"`
 }
 
 func c12Counts(tier string) (int, int) {
@@ -128,6 +135,12 @@ func c12Gen(r *rand.Rand, tier string, idx int) any {
 
 		return &p
 	}
+	if r.IntN(4) == 0 {
+		e := &C12Params{E2E: []string{"12-cert", "12-clientauth", "12-ecdhepsk", "12-cid", "12-nohv"}[r.IntN(5)], MTU: []int{64, 100, 150, 300, 1200}[r.IntN(5)]}
+		e.E2ENet = NetRules{DupPm: r.IntN(200), HoldPm: 50 + r.IntN(400), FaultsUntilIdx: 10 + r.IntN(60), HoldMaxNs: int64(time.Millisecond) * int64(1+r.IntN(400))}
+
+		return e
+	}
 	p := &C12Params{PerRec: 1 + r.IntN(3)}
 	p.MTU = []int{1, 2, 3, 7, 16, 64, 100, 255, 256, 1200, 1500}[r.IntN(11)]
 	nmsg := 1 + r.IntN(5)
@@ -208,9 +221,53 @@ func (m *refMsg) complete() bool {
 	return true
 }
 
+func c12E2E(rc *RunCtx, p *C12Params) {
+	s := rc.S
+	v, ok := variantByName(p.E2E)
+	if !ok {
+		rc.Violate("harness", "unknown variant")
+
+		return
+	}
+	rc.R.Class = fmt.Sprintf("e2e/%s/mtu%d", v.Name, p.MTU)
+	rc.R.NonTriv = true
+	applyKnobs(&v.C, 0, false, p.MTU)
+	applyKnobs(&v.S, 0, false, p.MTU)
+	n := NewSimNet(s, p.E2ENet)
+	pair, err := NewPair(s, n, v.C, v.S, nil)
+	if err != nil {
+		rc.Violate("harness", "config: %v", err)
+
+		return
+	}
+	defer pair.Teardown()
+	pair.StartHandshakes(0)
+	for {
+		limit := n.LastFaultAt + c02Bound
+		if s.Now() >= limit || s.Run(pair.BothDone, limit-s.Now()) || len(s.Failures()) > 0 || len(s.Panics) > 0 {
+			break
+		}
+	}
+	if s.Overrun() {
+		return
+	}
+	if !pair.BothOK() {
+		rc.Violate("e2e-not-reassembled", "%s at MTU %d with datagrams reordered and duplicated but none lost: the handshake did not complete (client done=%v err=%v at %s, server done=%v err=%v at %s)", v.Name, p.MTU,
+			pair.CHs.Done, pair.CHs.Err, pair.Env.FSMState("c"), pair.SHs.Done, pair.SHs.Err, pair.Env.FSMState("s"))
+
+		return
+	}
+	s.Probe("e2e-handshake-reassembled-under-reordering")
+}
+
 func c12Run(rc *RunCtx, params any) {
 	p := params.(*C12Params)
 	s := rc.S
+	if p.E2E != "" {
+		c12E2E(rc, p)
+
+		return
+	}
 	rc.R.Class = fmt.Sprintf("mtu%d/msgs%d", p.MTU, len(p.Lens))
 	// the real sender
 	sock := NewSimNet(s, NetRules{}).NewConn("c", Addr(1, 1))
